@@ -2,6 +2,7 @@ import SockModel.Model.HsSched
 import SockModel.Model.HsTimed
 import SockModel.Model.HsBlock
 import SockModel.Model.HsAsync
+import SockModel.Model.HsAsyncQ
 import SockModel.Model.TlsBudget
 /-!
 # C18: handshake completion beyond the polling schedule
@@ -485,11 +486,12 @@ HUP/ERR).
 Proved: the pairing **asynchronous server / polling synchronous client**, nothing queued on the server
 (`handshake_completes_async_server`).  The server then only ever runs readable tasks; `POLLOUT` is never requested
 (`AInv.po`), so the `pollout_protocol` invariant of Props/C18.lean holds trivially.
-NOT proved (open): an asynchronous CLIENT - it starts its handshake only through a writable task, i.e. with a buffer
-queued and `POLLOUT` armed (`Armed`); the reduction of the writable task to `Send(front, 0)` needs, beyond
-`tlsWrite_fl` / `tlsWrite_hs` below (proved), the fact that every readable task leaves `isReadable = false` (true of
-the code, an induction over `hsRun` not done here), because `prepWritable` keeps a stale `isReadable`; a server with
-queued buffers (same reason); async/async pairings (two drivers). -/
+Then the general case (`handshake_completes_async_endpoint`): an asynchronous endpoint of EITHER role with a send
+queue - buffers queued before and during the handshake - so that the WRITABLE task (`DriverOnWritable` → `SendSome` →
+`sendSomeWritable`) and the `POLLOUT` protocol of `DriverQuery` take part.  An asynchronous client starts its handshake
+only through a writable task, i.e. it needs a buffer queued (hypothesis `u = true → q ≠ []`; without it nothing ever
+happens: `example` below).
+NOT proved (open): async/async pairings (two drivers); an asynchronous endpoint paired with a BLOCKING peer. -/
 
 /-- **deemed_flags_are_harmless** - for ANY engine: on the healthy channel the glue's `Read` and `Write` commute with
 forgetting the "deemed readable / writable" flags a driver task sets (`nf`), provided the budget is 0 and the socket is
@@ -577,5 +579,87 @@ example : AFair 3 ((List.replicate 8 [ActA.drive, ActA.peer .send, ActA.drive]).
 example : AFair 2 ((List.replicate 8 [ActA.peer (.recv 5), ActA.drive]).flatten) := by decide
 example : ¬ AFair 2 ((List.replicate 8 [ActA.peer (.recv 5), ActA.peer .send]).flatten) := by decide
 example : ∀ a ∈ (List.replicate 8 [ActA.peer (.recv 5), ActA.drive]).flatten, a.okA := by decide
+
+/-! ### an asynchronous endpoint of either role, with a send queue -/
+
+/-- **readable_task_clears_flag**: `isReadable` is written only by `BioRead` (to `false`), and every `ssl_read` of the
+reference engine performs a BIO read: a readable task leaves `isReadable = false` - which the writable task relies on
+(`prepWritable` does not reset it; with a stale `isReadable` the next BIO read would `recv` without a wait). -/
+theorem readable_task_clears_flag (C : Cfg) (hC : 0 < C.stepsMax) (P : HsP) (r : Bool) (rx : Nat) (s : St Hs Chan)
+    (hw : WF P s.e) (hle : s.g.lastError = .none ∨ s.g.lastError = .wantRead) :
+    (receiveReadable C (chanWorld r) (engine P) s rx).2.g.isReadable = false :=
+  receiveReadable_ir C hC P r rx s hw hle
+
+/-- **writable_task_progress**: the driver's writable task with the front buffer `buf` of the queue = `Send(buf, 0)`:
+no exception, no assert; progress if the engine can progress; either all of `buf` is taken (then the handshake is
+finished, nothing cached, nothing pending) or none of it (WANT_READ cached, `buf` remembered for the retry). -/
+theorem writable_task_progress (C : Cfg) (hC : 1 < C.stepsMax) (P : HsP) (r : Bool) (buf : Bytes) (hb : buf ≠ [])
+    (s : St Hs Chan) (hi : SideInv P r buf (nf s)) (hir : s.g.isReadable = false) :
+    ∃ k s', sendSomeWritable C (chanWorld r) (engine P) s buf = (.ok k, s') ∧ SideInv P r buf (nf s') ∧
+      Tr P r s.e s.w s'.e s'.w ∧ (CanProg r s.e s.w → work P s'.e < work P s.e) ∧ Tight (nf s') ∧
+      s'.g.isReadable = false ∧
+      ((k = buf.length ∧ 3 ≤ s'.e.stage ∧ s'.g.lastError = .none ∧ s'.g.pendingSend = []) ∨ k = 0) :=
+  sendSomeWritable_hs C hC P r buf hb s hi hir
+
+/-- in every window of `w` steps the driver is stepped and the peer calls (queueing buffers counts for neither) -/
+def isPeerCall : ActG → Bool
+  | .peer _ => true
+  | _ => false
+
+def GFair (w : Nat) (l : List ActG) : Prop :=
+  ∀ i, i < l.length + 1 - w →
+    (∃ a ∈ (l.drop i).take w, a = ActG.drive) ∧ (∃ a ∈ (l.drop i).take w, isPeerCall a = true)
+
+instance (w : Nat) (l : List ActG) : Decidable (GFair w l) := by
+  unfold GFair; exact inferInstance
+
+/-- **handshake_completes_async_endpoint**: an asynchronous endpoint of role `u` (client or server; receive buffer
+size `rx ≥ 1`; `q` = the buffers queued at the start, non-empty ones; a CLIENT must have one) and a polling synchronous
+peer.  For every schedule of driver steps, `Send(buffer)` calls of the asynchronous socket's user (non-empty buffers,
+at any time) and zero-timeout calls of the peer, in which driver steps and peer calls both occur in every window of
+`w` steps: after at most `w · 2·(k1+k2+k3+3)` steps, and after every longer prefix, both sides are `init_finished`;
+no driver step and no peer call throws or asserts; and `Armed` holds throughout (queued data is armed with `POLLOUT` or
+remembered as suppressed - the invariant of `pollout_protocol`), with its converse. -/
+theorem handshake_completes_async_endpoint (C : Cfg) (hC : 1 < C.stepsMax) (P : HsP) (u : Bool) (dc ds : Bytes)
+    (hdc : dc ≠ []) (hds : ds ≠ []) (rx : Nat) (hrx : 1 ≤ rx) (segs : List Nat) (q : List Bytes)
+    (hq : ∀ b ∈ q, b ≠ []) (hfed : u = true → q ≠ []) (w : Nat) (l : List ActG) (hok : ∀ a ∈ l, a.okG)
+    (hf : GFair w l) (j : Nat) (hj : j ≤ l.length) :
+    (SysAG.run C P u dc ds rx (l.take j) (SysAG.init P u segs q)).faults = 0 ∧
+    ((SysAG.run C P u dc ds rx (l.take j) (SysAG.init P u segs q)).x.a.sendQ ≠ [] ↔
+      ((SysAG.run C P u dc ds rx (l.take j) (SysAG.init P u segs q)).x.a.pollOut = true ∨
+       (SysAG.run C P u dc ds rx (l.take j) (SysAG.init P u segs q)).x.s.g.driverSendSuppressed = true)) ∧
+    (P.total * w ≤ j → (SysAG.run C P u dc ds rx (l.take j) (SysAG.init P u segs q)).bothFinished) := by
+  have hfair : (agTS C hC P u dc ds hdc hds rx hrx).SideFair w l := by
+    intro i hi
+    obtain ⟨⟨a, ha, hd⟩, ⟨b, hb, hk⟩⟩ := hf i (by omega)
+    have h1 : (agTS C hC P u dc ds hdc hds rx hrx).side a = some u := by rw [hd]; rfl
+    have h2 : (agTS C hC P u dc ds hdc hds rx hrx).side b = some (!u) := by
+      cases b with
+      | drive => cases hk
+      | enq _ => cases hk
+      | peer k => rfl
+    cases u with
+    | true => exact ⟨⟨a, ha, h1⟩, ⟨b, hb, h2⟩⟩
+    | false => exact ⟨⟨b, hb, h2⟩, ⟨a, ha, h1⟩⟩
+  obtain ⟨h1, h2⟩ := (agTS C hC P u dc ds hdc hds rx hrx).fair_completes w l (SysAG.init P u segs q)
+    (gInv_init P u dc ds segs q hq hfed) hok hfair j hj
+  rw [agTS_run] at h1 h2
+  have hmu : (agTS C hC P u dc ds hdc hds rx hrx).mu (SysAG.init P u segs q) = P.total := by
+    show work P _ + work P _ = _
+    simp only [SysAG.init, work_init, HsP.total]; omega
+  rw [hmu] at h2
+  refine ⟨?_, ⟨h1.armed, h1.armed'⟩, h2⟩
+  have := h1.inv.2.2.2.2.2.2
+  cases u <;> simpa [SysAG.sys, mkSys, SysAG.pw] using this
+
+/-- the hypothesis "a client has something queued" is needed: an asynchronous client with an empty queue never even
+starts (the handshake is lazy; nothing makes its descriptor readable, and `POLLOUT` is not requested) -/
+example :
+    (SysAG.run Cfg.current tinyP' true [1] [2] 4
+      [.drive, .peer (.recv 4), .drive, .peer (.recv 4), .drive, .peer (.recv 4), .drive]
+      (SysAG.init tinyP' true [] [])).x.s.e = Hs.init tinyP' true := by decide
+
+example : GFair 3 ((List.replicate 6 [ActG.drive, ActG.enq [7], ActG.peer (.recv 3)]).flatten) := by decide
+example : ∀ a ∈ (List.replicate 6 [ActG.drive, ActG.enq [7], ActG.peer (.recv 3)]).flatten, a.okG := by decide
 
 end SockModel.Hs.C18Hs
